@@ -315,7 +315,10 @@ Fixpoint exec (c : cfg) (s : st) (ls : list label) : option st :=
   end.
 
 Definition reachable (c : cfg) (s : st) : Prop := exists ls, exec c (init c) ls = Some s.
-Definition terminal (c : cfg) (s : st) : Prop := forall l, step c s l = None.
+(* abrupt closes are faults of the environment; a state is terminal when nothing but a fault can happen *)
+Definition is_fault (l : label) : bool := match l with CAbort | UAbort _ => true | _ => false end.
+Definition terminal (c : cfg) (s : st) : Prop := forall l, is_fault l = false -> step c s l = None.
+Definition fault_free (ls : list label) : Prop := Forall (fun l => is_fault l = false) ls.
 
 (* the final state the property asks for *)
 Definition final (c : cfg) (s : st) : Prop :=
